@@ -184,6 +184,9 @@ type Gate struct {
 	// closed meanwhile (its bytes are out: a real transport's Write that has handed everything to the
 	// kernel returns nil whatever Close does concurrently). Default: it reports the close.
 	SucceedOnClose bool
+	// HoldThroughClose keeps the write parked even when one of the endpoints is closed: only Release
+	// ends it (a Write whose bytes are out but which returns late, after the close has been processed).
+	HoldThroughClose bool
 }
 
 // Reached is closed when a write parked at the gate.
@@ -465,6 +468,17 @@ func (e *End) park(g *Gate) error {
 	defer atomic.AddInt32(&e.parkedW, -1)
 	census.Bump()
 	close(g.reached)
+	if g.HoldThroughClose {
+		<-g.release
+		census.Bump()
+		if g.when == After && g.SucceedOnClose {
+			return nil
+		}
+		if c, cerr := e.isClosed(); c {
+			return cerr
+		}
+		return nil
+	}
 	select {
 	case <-g.release:
 	case <-e.dead:
